@@ -77,8 +77,9 @@ struct syslock_save_pair system_lock_save()
     assert(count != 0);
 
     IGRIS_VERIF_POINT_OBJ("syslock.save", &mtx);
-    while (count--)
+    while (count)
     {
+        --count;
         mtx.unlock();
     }
 
